@@ -592,6 +592,17 @@ func (c *trCtx) binary(x *ast.BinaryExpr) string {
 					return "(!decide (" + c.expr(other) + " = (GoZero.zero : " + lt + ")))"
 				}
 			}
+			if _, isID := trUnparen(other).(*ast.Ident); isID && trIsInterned(c.typeOf(other)) {
+				if _, isParam := c.names[c.info().Uses[trUnparen(other).(*ast.Ident)]]; isParam && c.nilParamHook == nil {
+					// a local VARIABLE of interned pointer type (the value variable of a range over []*Commodity): nil is the zero value,
+					// as for a field
+					lt := c.leanType(c.typeOf(other), x.Pos())
+					if x.Op == token.EQL {
+						return "(decide (" + c.expr(other) + " = (GoZero.zero : " + lt + ")))"
+					}
+					return "(!decide (" + c.expr(other) + " = (GoZero.zero : " + lt + ")))"
+				}
+			}
 			if !trIsError(c.typeOf(other)) {
 				if c.nilParamHook != nil {
 					if r, ok := c.nilParamHook(other, x.Op); ok {
@@ -880,6 +891,12 @@ func (c *trCtx) call(x *ast.CallExpr) string {
 	if r, ok := c.treeCallExpr(x); ok {
 		return r
 	}
+	if r, ok := c.builderNew(x); ok {
+		return r
+	}
+	if m, _ := c.builderCallInfo(x); m != nil {
+		trFail(x.Pos(), "a call on a table builder object inside an expression is outside the subset (statements and `x := t.AddRow()…` only)")
+	}
 	if r, ok := c.regexpCall(x); ok {
 		return r // re.ReplaceAllString on a package-level regular expression of the prelude (trans_units_beancount.go)
 	}
@@ -1002,7 +1019,9 @@ func (c *trCtx) builtin(name string, x *ast.CallExpr) string {
 			}
 			return "(len " + c.expr(x.Args[0]) + ")"
 		case *types.Map:
-			trFail(x.Pos(), "len of a map is outside the subset (association lists may hold stale entries)")
+			// the number of entries: every map the translated code builds (from the empty map by AMap.set/erase) holds a key once; the
+			// agreement theorems state this (`WF`) for maps that are arguments
+			return "(len " + c.expr(x.Args[0]) + ")"
 		}
 		if isBasicKind(ty, types.IsString) {
 			return "(Strings.byteLen " + c.expr(x.Args[0]) + ")"
